@@ -34,7 +34,8 @@
                     holds iff  (vmm & mask) = value
      lmin, lmax     -1 = none, else 0..6: holds iff MSTP = 0 (log) and MTIN >= lmin  resp. MTIN <= lmax
      pay criterion  [k, cls, w, w2, ic]  "sub": text contains w; "re": class as above on the text; ic = ignore case
-     lcs criterion  [k, ids]          "list" with a non-empty ids: holds iff lc is a member; empty list = no criterion
+     lcs criterion  [k, ids]          "list" with a non-empty ids: holds iff lc is a member; empty list = no criterion.
+                    Set semantics: neither the order of the ids nor repeated ids matter
      Match(f, m) == f.enabled /\ (Crit(f, m) # f.not);  apid/ctid/type/level criteria never hold without ext.
 
    FRONT-ENDS (Expressible(fe, f)): json / jsona (JSON with / without explicit ...IsRegex keys), dlf (dlt-viewer DLF, the
@@ -131,7 +132,9 @@ PayHolds(c, text) ==
 \* lifecycles
 NoLcs == [k |-> "none", ids |-> <<>>]
 LcList(ids) == [k |-> "list", ids |-> ids]
-LcHolds(c, m) == c.k = "none" \/ Len(c.ids) = 0 \/ (\E i \in 1..Len(c.ids) : c.ids[i] = m.lc)
+\* membership in the SET of listed ids (order and multiplicity of the list are irrelevant)
+LcIdSet(c) == {c.ids[i] : i \in 1..Len(c.ids)}
+LcHolds(c, m) == c.k = "none" \/ LcIdSet(c) = {} \/ m.lc \in LcIdSet(c)
 
 -----------------------------------------------------------------------------
 \* the property
